@@ -163,7 +163,7 @@ func (c *Ctx) gcsValidate(label string, stores []string, progs [][]gcs.Op, class
 			continue
 		}
 		if len(rj) == 0 {
-			c.Inconclusive("%s/%s: rejection of trace %d step %d (%s) did not reproduce", label, r.Engine, r.Tr, r.I, r.Ev)
+			c.Unreproduced("%s/%s: rejection of trace %d step %d (%s) did not reproduce", label, r.Engine, r.Tr, r.I, r.Ev)
 			continue
 		}
 		for _, x := range rj {
